@@ -210,7 +210,12 @@ class UMNDirHandler(DirHandler):
                 done["name"] = 1
             elif line[0:5] == "Path=":
                 pathname = line[5:]
-                if len(pathname) and pathname[-1] == "/":
+                if (
+                    len(pathname)
+                    and pathname[-1] == "/"
+                    and pathname[0:4] != "URL:"
+                    and pathname[0:5] != "/URL:"
+                ):
                     pathname = pathname[0:-1]
                 if len(line) >= 7 and (line[5:7] == "./" or line[5:7] == "~/"):
                     # Handle ./: make full path.
